@@ -560,7 +560,7 @@ class HostGen:
                 eb = self.body(avail, depth + 1, "else")
                 out.append(self.node("If", ["c"], [o], then_branch=tb, else_branch=eb))
             else:
-                out.append(self.node(r.choice(UNARY), [self.pick(avail)], [o]))
+                out.append(self.node(r.choice(UNARY + ["Identity"]), [self.pick(avail)], [o]))
             avail.append(o)
         return out, avail
 
@@ -583,7 +583,7 @@ class HostGen:
 
 
 def gen_host(rng, size: int, with_funcs: bool, with_cond: bool, extra_inits: list[str] = (), f_overload: str = "",
-             force_f_call: bool = False):
+             force_f_call: bool = False, f_multi_shape=None):
     hg = HostGen(rng, with_funcs, with_cond)
     hg.gaps = rng.random() < 0.35
     hg.f_overload = f_overload if with_funcs else ""
@@ -622,12 +622,19 @@ def gen_host(rng, size: int, with_funcs: bool, with_cond: bool, extra_inits: lis
         opsets.append(helper.make_opsetid("local", 1))
         fhg = HostGen(rng, False, False)
         fhg.k = 1000
-        with_aux = rng.random() < 0.4
+        with_aux = rng.random() < 0.4 and not f_multi_shape
         if with_aux:
             # `f` calls into a domain the main graph does not import
             fn, _ = fhg.nodes(["a", "h0"], rng.randint(1, 4), 0)
             fn = [fhg.node("h", ["a"], ["h0"], domain="aux")] + fn
             fops = [helper.make_opsetid("", 18), helper.make_opsetid("aux", 1)]
+        elif f_multi_shape:
+            # the C07-D3 shape inside a function: a consumer of the pattern's *second* output node precedes the first output node
+            o1, o2, oc = f_multi_shape
+            fn = [fhg.node(o2, ["a"], ["fm_n"]), fhg.node(oc, ["fm_n"], ["fm_u"]), fhg.node(o1, ["a"], ["fm_r"]),
+                  fhg.node("Add", ["fm_u", "fm_r"], ["fm_b"])]
+            fops = [helper.make_opsetid("", 18)]
+            with_aux = False
         else:
             fn, _ = fhg.nodes(["a"], rng.randint(1, 4), 0)
             fops = [helper.make_opsetid("", 18)]
